@@ -2665,7 +2665,7 @@ class sptensor:
                 subs = self.subs[idx.transpose()[0]]
             return sptensor(
                 subs,
-                True * np.ones((self.subs.shape[0], 1)).astype(self.vals.dtype),
+                True * np.ones((subs.shape[0], 1)).astype(self.vals.dtype),
                 self.shape,
             )
 
@@ -2757,6 +2757,8 @@ class sptensor:
         # Case 1: One argument is a scalar
         if isinstance(other, (float, int)):
             if other == 0:
+                if self.nnz == 0:
+                    return ttb.sptensor(shape=self.shape)
                 return ttb.sptensor(
                     self.subs, True * np.ones((self.subs.shape[0], 1)), self.shape
                 )
@@ -2767,7 +2769,8 @@ class sptensor:
             subs2 = self.allsubs()[subs2Idx, :]
             return ttb.sptensor(
                 np.vstack((subs1, subs2)),
-                True * np.ones((subs2.shape[0], 1)).astype(self.vals.dtype),
+                True
+                * np.ones((subs1.shape[0] + subs2.shape[0], 1)).astype(self.vals.dtype),
                 self.shape,
             )
 
